@@ -3,90 +3,143 @@ From PV Require Import C08.Spec C08.Lib C08.ProofsRound.
 Require Import ZifyBool.
 
 (* ================================================================ /proc/meminfo *)
-Lemma mline_body m : wf_mline m = true ->
-  exists body, k_mline m = body ++ [10] /\ contains 10 body = false.
+Lemma wf_mline_inv m : wf_mline m = true ->
+  (ml_name m <> [] /\ no_ws (ml_name m) = true) /\ is_dec (ml_val m) = true /\ rest_ok (ml_rest m) = true.
 Proof.
-  intros H. unfold wf_mline in H. apply andb_true_iff in H as [Hn Hv].
-  apply tok_ok_spec in Hn as [_ Hn].
-  exists (ml_name m ++ spaces (S (ml_pad m)) ++ ml_val m ++ (if ml_kb m then bs " kB" else [])).
-  split.
-  - unfold k_mline. now rewrite <- !app_assoc.
-  - rewrite !contains_app. rewrite (no_ws_contains 10 _ eq_refl Hn).
-    rewrite contains_spaces by reflexivity. rewrite (dec_no_nl _ Hv).
-    destruct (ml_kb m); reflexivity.
+  unfold wf_mline. intros H. apply andb_true_iff in H as [H Hr]. apply andb_true_iff in H as [Hn Hv].
+  apply tok_ok_spec in Hn. auto.
+Qed.
+
+Lemma mitem_body i : wf_mitem i = true ->
+  exists body, k_mitem i = body ++ [10] /\ contains 10 body = false.
+Proof.
+  destruct i as [m|b]; cbn [wf_mitem k_mitem]; intros H.
+  - apply wf_mline_inv in H as [[_ Hn] [Hv Hr]].
+    unfold rest_ok in Hr. apply andb_true_iff in Hr as [Hr _]. apply negb_true_iff in Hr.
+    exists (ml_name m ++ spaces (S (ml_pad m)) ++ ml_val m ++ ml_rest m). split.
+    + unfold k_mline. now rewrite <- !app_assoc.
+    + rewrite !contains_app. rewrite (no_ws_contains 10 _ eq_refl Hn).
+      rewrite contains_spaces by reflexivity. now rewrite (dec_no_nl _ Hv), Hr.
+  - apply andb_true_iff in H as [H _]. apply negb_true_iff in H. eauto.
 Qed.
 
 Lemma split_ws_mline m : wf_mline m = true ->
   exists rest, split_ws (k_mline m) = ml_name m :: ml_val m :: rest.
 Proof.
-  intros H. unfold wf_mline in H. apply andb_true_iff in H as [Hn Hv].
-  apply tok_ok_spec in Hn as [Hn1 Hn2]. apply is_dec_tok in Hv as [Hv1 Hv2].
+  intros H. apply wf_mline_inv in H as [[Hn1 Hn2] [Hv Hr]]. apply is_dec_tok in Hv as [Hv1 Hv2].
   unfold k_mline. rewrite spaces_S. cbn [app].
   rewrite split_ws_token_sep by auto. rewrite split_ws_spaces.
-  destruct (ml_kb m).
-  - change (bs " kB" ++ [10]) with (32 :: [107; 66; 10]).
-    rewrite split_ws_token_sep by auto. eauto.
+  unfold rest_ok in Hr. apply andb_true_iff in Hr as [_ Hr].
+  destruct (ml_rest m) as [|c r].
+  - cbn [app]. rewrite split_ws_token_sep by auto. eauto.
   - cbn [app]. rewrite split_ws_token_sep by auto. eauto.
 Qed.
 
-Definition mstep (d : dict) (m : mline) : dict := dset (ml_name m) (dec_val (ml_val m) * 1024) d.
+Definition mstep (d : dict) (i : mitem) : dict :=
+  match i with
+  | MLine m => dset (ml_name m) (dec_val (ml_val m) * 1024) d
+  | MJunk _ => d
+  end.
 
-Lemma mem_step_line d m : wf_mline m = true -> mem_step d (k_mline m) = Val (mstep d m).
+(* a "name number ..." line is stored whatever [lenient] is; any other line is skipped by the
+   lenient code and makes the strict code raise *)
+Lemma mem_step_line len d m : wf_mline m = true -> mem_step len d (k_mline m) = Val (mstep d (MLine m)).
 Proof.
   intros H. destruct (split_ws_mline m H) as [rest E].
-  unfold mem_step. rewrite E. cbn [nth_error of_option obind].
-  unfold wf_mline in H. apply andb_true_iff in H as [_ Hv].
-  rewrite (py_int_dec _ Hv). reflexivity.
+  unfold mem_step. rewrite E. cbn [nth_error].
+  apply wf_mline_inv in H as [_ [Hv _]]. rewrite (parse_int_dec _ Hv). reflexivity.
 Qed.
 
-Lemma mem_fold_lines ms : forall d, forallb wf_mline ms = true ->
-  mem_fold d (map k_mline ms) = Val (fold_left mstep ms d).
+Lemma mem_step_junk_lenient d b : wf_mitem (MJunk b) = true -> mem_step true d (b ++ [10]) = Val d.
 Proof.
-  induction ms as [|m ms IH]; intros d H; [reflexivity|].
-  cbn [forallb] in H. apply andb_true_iff in H as [Hm Hr].
-  cbn [map mem_fold fold_left]. rewrite (mem_step_line d m Hm). cbn [obind]. now apply IH.
+  cbn [wf_mitem]. intros H. apply andb_true_iff in H as [_ H]. unfold not_name_number in H.
+  unfold mem_step. rewrite split_ws_snoc_ws by reflexivity.
+  destruct (nth_error (split_ws b) 1) as [t|]; [|reflexivity].
+  destruct (parse_int t); [discriminate|reflexivity].
 Qed.
 
-Fixpoint mlast (k : bytes) (ms : list mline) (acc : option Z) : option Z :=
+Lemma mem_step_junk_strict d b : wf_mitem (MJunk b) = true ->
+  mem_step false d (b ++ [10]) = Exc IndexError \/ mem_step false d (b ++ [10]) = Exc ValueError.
+Proof.
+  cbn [wf_mitem]. intros H. apply andb_true_iff in H as [_ H]. unfold not_name_number in H.
+  unfold mem_step. rewrite split_ws_snoc_ws by reflexivity.
+  destruct (nth_error (split_ws b) 1) as [t|]; [|now left].
+  destruct (parse_int t); [discriminate|now right].
+Qed.
+
+Lemma mem_fold_lines len ms : forall d, forallb wf_mitem ms = true -> (len = true \/ no_junk ms = true) ->
+  mem_fold len d (map k_mitem ms) = Val (fold_left mstep ms d).
+Proof.
+  induction ms as [|i ms IH]; intros d H HL; [reflexivity|].
+  cbn [forallb] in H. apply andb_true_iff in H as [Hi Hr].
+  assert (HL' : len = true \/ no_junk ms = true).
+  { destruct HL as [HL|HL]; [now left|]. unfold no_junk in HL. cbn [forallb] in HL.
+    apply andb_true_iff in HL as [_ HL]. now right. }
+  cbn [map mem_fold fold_left]. destruct i as [m|b].
+  - cbn [k_mitem]. rewrite (mem_step_line len d m Hi). cbn [obind]. now apply IH.
+  - destruct HL as [-> | HL]; [|discriminate HL].
+    cbn [k_mitem]. rewrite (mem_step_junk_lenient d b Hi). cbn [obind mstep]. now apply IH.
+Qed.
+
+Fixpoint mlast (k : bytes) (ms : list mitem) (acc : option Z) : option Z :=
   match ms with
   | [] => acc
-  | m :: r => mlast k r (if beqb k (ml_name m) then Some (dec_val (ml_val m) * 1024) else acc)
+  | MLine m :: r => mlast k r (if beqb k (ml_name m) then Some (dec_val (ml_val m) * 1024) else acc)
+  | MJunk _ :: r => mlast k r acc
   end.
 
 Lemma dget_fold ms : forall d k, dget k (fold_left mstep ms d) = mlast k ms (dget k d).
 Proof.
-  induction ms as [|m ms IH]; intros d k; [reflexivity|].
-  cbn [fold_left mlast]. rewrite IH. f_equal. unfold mstep. apply dget_dset.
+  induction ms as [|i ms IH]; intros d k; [reflexivity|].
+  cbn [fold_left]. rewrite IH. destruct i as [m|b]; cbn [mlast mstep]; [|reflexivity].
+  f_equal. apply dget_dset.
 Qed.
 
 Lemma mlast_notin k ms : forall acc,
-  existsb (beqb k) (map ml_name ms) = false -> mlast k ms acc = acc.
+  existsb (beqb k) (mnames ms) = false -> mlast k ms acc = acc.
 Proof.
-  induction ms as [|m ms IH]; intros acc H; [reflexivity|].
-  cbn [map existsb] in H. apply orb_false_iff in H as [H1 H2].
-  cbn [mlast]. rewrite H1. now apply IH.
+  induction ms as [|i ms IH]; intros acc H; [reflexivity|]. destruct i as [m|b].
+  - cbn [mnames existsb] in H. apply orb_false_iff in H as [H1 H2].
+    cbn [mlast]. rewrite H1. now apply IH.
+  - cbn [mlast]. now apply IH.
 Qed.
 
-Lemma mlast_nodup k ms : nodupb (map ml_name ms) = true ->
+Lemma mlast_nodup k ms : nodupb (mnames ms) = true ->
   mlast k ms None = option_map (fun v => v * 1024) (kfind k ms).
 Proof.
-  induction ms as [|m ms IH]; intros H; [reflexivity|].
-  cbn [map nodupb] in H. apply andb_true_iff in H as [H1 H2]. apply negb_true_iff in H1.
-  cbn [mlast kfind]. destruct (beqb k (ml_name m)) eqn:E.
-  - apply beqb_eq in E. subst k. rewrite mlast_notin by exact H1. reflexivity.
-  - now apply IH.
+  induction ms as [|i ms IH]; intros H; [reflexivity|]. destruct i as [m|b].
+  - cbn [mnames nodupb] in H. apply andb_true_iff in H as [H1 H2]. apply negb_true_iff in H1.
+    cbn [mlast kfind]. destruct (beqb k (ml_name m)) eqn:E.
+    + apply beqb_eq in E. subst k. rewrite mlast_notin by exact H1. reflexivity.
+    + now apply IH.
+  - cbn [mlast kfind]. now apply IH.
 Qed.
 
-Theorem parse_meminfo_printed ms : wf_meminfo ms = true ->
-  exists d, parse_meminfo (k_meminfo ms) = Val d /\
+Theorem parse_meminfo_printed len ms : wf_meminfo ms = true -> (len = true \/ no_junk ms = true) ->
+  exists d, parse_meminfo len (k_meminfo ms) = Val d /\
             forall name, dget (bs name) d = kbytes ms name.
 Proof.
-  intros H. unfold wf_meminfo in H. apply andb_true_iff in H as [Hw Hn].
+  intros H HL. unfold wf_meminfo in H. apply andb_true_iff in H as [Hw Hn].
   exists (fold_left mstep ms []). split.
   - unfold parse_meminfo, k_meminfo. rewrite lines_keep_concat.
     + now apply mem_fold_lines.
-    + intros m Hm. apply mline_body. rewrite forallb_forall in Hw. now apply Hw.
+    + intros m Hm. apply mitem_body. rewrite forallb_forall in Hw. now apply Hw.
   - intros name. rewrite dget_fold. cbn [dget]. unfold kbytes. now apply mlast_nodup.
+Qed.
+
+(* the code as it is now stops at the first line that is not "name number ..." *)
+Lemma mem_fold_strict_junk ms1 b ms2 : forall d,
+  forallb wf_mitem ms1 = true -> no_junk ms1 = true -> wf_mitem (MJunk b) = true ->
+  mem_fold false d (map k_mitem (ms1 ++ MJunk b :: ms2)) = Exc IndexError \/
+  mem_fold false d (map k_mitem (ms1 ++ MJunk b :: ms2)) = Exc ValueError.
+Proof.
+  induction ms1 as [|i ms1 IH]; intros d H1 H2 Hb.
+  - cbn [app map mem_fold k_mitem].
+    destruct (mem_step_junk_strict d b Hb) as [-> | ->]; [now left|now right].
+  - cbn [forallb] in H1. apply andb_true_iff in H1 as [Hi H1].
+    unfold no_junk in H2. cbn [forallb] in H2. apply andb_true_iff in H2 as [Hj H2].
+    destruct i as [m|x]; [|discriminate Hj].
+    cbn [app map mem_fold k_mitem]. rewrite (mem_step_line false d m Hi). cbn [obind]. now apply IH.
 Qed.
 
 (* every byte figure of meminfo is a multiple of 1024 (so "/ 2" below is exact) *)
@@ -100,11 +153,12 @@ Qed.
 Lemma kbytes_nonneg ms name v : wf_meminfo ms = true -> kbytes ms name = Some v -> 0 <= v.
 Proof.
   unfold wf_meminfo, kbytes. intros H. apply andb_true_iff in H as [H _].
-  induction ms as [|m ms IH]; [discriminate|].
+  induction ms as [|i ms IH]; [discriminate|].
   cbn [forallb] in H. apply andb_true_iff in H as [Hm Hr].
-  cbn [kfind]. destruct (beqb (bs name) (ml_name m)); [|now apply IH].
+  destruct i as [m|b]; cbn [kfind]; [|now apply IH].
+  destruct (beqb (bs name) (ml_name m)); [|now apply IH].
   cbn [option_map]. intros E. injection E as <-.
-  unfold wf_mline in Hm. apply andb_true_iff in Hm as [_ Hv].
+  apply wf_mline_inv in Hm as [_ [Hv _]].
   destruct (ml_val m) as [|c l] eqn:E; [discriminate|]. cbn [is_dec] in Hv.
   pose proof (dec_val_nonneg _ Hv). lia.
 Qed.
@@ -113,22 +167,27 @@ Qed.
 Lemma zline_body z : wf_zline z = true ->
   exists body, k_zline z = body ++ [10] /\ contains 10 body = false.
 Proof.
-  destruct z as [p1 p2 v|b]; cbn [wf_zline k_zline]; intros H.
-  - exists (spaces p1 ++ bs "low" ++ spaces (S p2) ++ v). split.
+  destruct z as [w1 w2 v w3|b]; cbn [wf_zline k_zline]; intros H.
+  - apply andb_true_iff in H as [H H3]. apply andb_true_iff in H as [H Hv].
+    apply andb_true_iff in H as [H _]. apply andb_true_iff in H as [H1 H2].
+    exists (w1 ++ bs "low" ++ w2 ++ v ++ w3). split.
     + now rewrite <- !app_assoc.
-    + rewrite !contains_app, !contains_spaces by reflexivity. now rewrite (dec_no_nl _ H).
+    + rewrite !contains_app, (blanks_no_nl _ H1), (blanks_no_nl _ H2), (blanks_no_nl _ H3), (dec_no_nl _ Hv).
+      reflexivity.
   - apply andb_true_iff in H as [H _]. apply negb_true_iff in H. eauto.
 Qed.
 
-Lemma strip_zlow p1 p2 v : is_dec v = true ->
-  strip (k_zline (ZLow p1 p2 v)) = bs "low" ++ spaces (S p2) ++ v.
+Lemma strip_zlow w1 w2 v w3 : blanks w1 = true -> blanks w3 = true -> is_dec v = true ->
+  strip (k_zline (ZLow w1 w2 v w3)) = bs "low" ++ w2 ++ v.
 Proof.
-  intros H. apply is_dec_tok in H as [Hv1 Hv2]. cbn [k_zline].
-  replace (spaces p1 ++ bs "low" ++ spaces (S p2) ++ v ++ [10])
-    with ((spaces p1 ++ bs "low" ++ spaces (S p2) ++ v) ++ [10]) by (now rewrite <- !app_assoc).
-  rewrite strip_snoc_ws by reflexivity. unfold strip. rewrite lstrip_spaces.
-  change (lstrip (bs "low" ++ spaces (S p2) ++ v)) with (bs "low" ++ spaces (S p2) ++ v).
-  rewrite app_assoc. now apply rstrip_no_ws_tail.
+  intros H1 H3 H. apply is_dec_tok in H as [Hv1 Hv2]. cbn [k_zline].
+  replace (w1 ++ bs "low" ++ w2 ++ v ++ w3 ++ [10])
+    with (w1 ++ (bs "low" ++ w2 ++ v) ++ (w3 ++ [10])) by (now rewrite <- !app_assoc).
+  unfold strip. rewrite lstrip_ws_prefix by (now apply blanks_ws).
+  change (lstrip ((bs "low" ++ w2 ++ v) ++ w3 ++ [10])) with ((bs "low" ++ w2 ++ v) ++ w3 ++ [10]).
+  rewrite rstrip_ws_suffix.
+  - rewrite app_assoc. rewrite rstrip_no_ws_tail by assumption. now rewrite <- app_assoc.
+  - rewrite forallb_app, (blanks_ws _ H3). reflexivity.
 Qed.
 
 Lemma zone_low_lines zs : forall acc, forallb wf_zline zs = true ->
@@ -137,12 +196,16 @@ Proof.
   induction zs as [|z zs IH]; intros acc H.
   - cbn. f_equal. lia.
   - cbn [forallb] in H. apply andb_true_iff in H as [Hz Hr].
-    cbn [map zone_low]. destruct z as [p1 p2 v|b]; cbn [wf_zline] in Hz.
-    + rewrite (strip_zlow p1 p2 v Hz). unfold K_low. rewrite prefixb_app.
-      destruct (is_dec_tok _ Hz) as [Hv1 Hv2].
-      rewrite spaces_S. cbn [app]. rewrite split_ws_token_sep by (try reflexivity; discriminate).
-      rewrite split_ws_spaces, split_ws_token by auto.
-      cbn [nth_error of_option obind]. rewrite (py_int_dec _ Hz). cbn [obind].
+    cbn [map zone_low]. destruct z as [w1 w2 v w3|b]; cbn [wf_zline] in Hz.
+    + apply andb_true_iff in Hz as [Hz H3]. apply andb_true_iff in Hz as [Hz Hv].
+      apply andb_true_iff in Hz as [Hz Hne]. apply andb_true_iff in Hz as [H1 H2].
+      rewrite (strip_zlow w1 w2 v w3 H1 H3 Hv). unfold K_low. rewrite prefixb_app.
+      destruct (is_dec_tok _ Hv) as [Hv1 Hv2].
+      destruct w2 as [|c w2']; [discriminate|].
+      cbn [blanks forallb] in H2. apply andb_true_iff in H2 as [Hc H2].
+      cbn [app]. rewrite split_ws_token_sep by (try reflexivity; try discriminate; now apply blank_is_ws).
+      rewrite split_ws_ws_prefix by (now apply blanks_ws). rewrite split_ws_token by auto.
+      cbn [nth_error of_option obind]. rewrite (py_int_dec _ Hv). cbn [obind].
       rewrite IH by exact Hr. cbn [low_pages]. f_equal. lia.
     + apply andb_true_iff in Hz as [_ Hz]. apply negb_true_iff in Hz.
       cbn [k_zline]. rewrite strip_snoc_ws by reflexivity. unfold K_low. rewrite Hz.
@@ -157,21 +220,60 @@ Proof.
   - intros z Hz. apply zline_body. rewrite forallb_forall in H. now apply H.
 Qed.
 
+Lemma low_pages_nonneg zs : forallb wf_zline zs = true -> 0 <= low_pages zs.
+Proof.
+  induction zs as [|z zs IH]; intros H; [cbn; lia|].
+  cbn [forallb] in H. apply andb_true_iff in H as [Hz Hr]. specialize (IH Hr).
+  destruct z as [w1 w2 v w3|b]; cbn [low_pages]; [|exact IH].
+  cbn [wf_zline] in Hz. apply andb_true_iff in Hz as [Hz _]. apply andb_true_iff in Hz as [_ Hv].
+  destruct v as [|c l]; [discriminate|]. cbn [is_dec] in Hv. pose proof (dec_val_nonneg _ Hv). lia.
+Qed.
+
+(* whatever bytes the file holds, reading the watermarks either yields a number or raises
+   IndexError ("low" without a second field) / ValueError (second field not a number) *)
+Lemma zone_low_outcomes ls : forall acc,
+  (exists n, zone_low acc ls = Val n) \/ zone_low acc ls = Exc IndexError \/ zone_low acc ls = Exc ValueError.
+Proof.
+  induction ls as [|l ls IH]; intros acc; [left; eexists; reflexivity|].
+  cbn [zone_low]. destruct (prefixb K_low (strip l)); [|apply IH].
+  destruct (nth_error (split_ws (strip l)) 1) as [t|]; cbn [of_option obind]; [|right; now left].
+  unfold py_int. destruct (parse_int t); cbn [of_option obind]; [apply IH|right; now right].
+Qed.
+
 (* ================================================================ the fallback estimate *)
 Lemma half_exact a : a * 1024 / 2 = a * 512.
 Proof. replace (a * 1024) with (a * 512 * 2) by lia. apply Z.div_mul. lia. Qed.
 
-Lemma avail_arith f wl a b c :
-  Z.quot (2 * (f - wl) + (2 * (a * 1024 + b * 1024) - Z.min (a * 1024 + b * 1024) (2 * wl))
-          + (2 * (c * 1024) - Z.min (c * 1024) (2 * wl))) 2
-  = (f - wl) + ((a * 1024 + b * 1024) - Z.min ((a * 1024 + b * 1024) / 2) wl)
-    + (c * 1024 - Z.min (c * 1024 / 2) wl).
-Proof.
-  replace (a * 1024 + b * 1024) with ((a + b) * 1024) by lia.
-  rewrite !half_exact.
-  match goal with |- Z.quot ?x 2 = ?y => replace x with (y * 2) by lia end.
-  apply Z.quot_mul. lia.
-Qed.
+(* the double-precision evaluation is exact for every rounding operator that leaves
+   multiples of 1024 (in half units: multiples of 512) below 2^63 alone *)
+Ltac Zify.zify_post_hook ::= Z.to_euclidean_division_equations.
+Section FloatExact.
+  Variable rnd : Z -> Z.
+  Hypothesis Hr : forall x, x mod 1024 = 0 -> - 2 ^ 63 < x < 2 ^ 63 -> rnd x = x.
+
+  Lemma fl_path_exact F W P S :
+    0 <= F -> 0 <= W -> 0 <= P -> 0 <= S -> F * 1024 + W * 512 + P * 1024 + S * 1024 < 2 ^ 61 ->
+    let free := F * 1024 in let wl := W * 512 in let pc := P * 1024 in let sr := S * 1024 in
+    py_trunc (py_add rnd (py_add rnd (PI (free - wl)) (py_sub rnd (PI pc) (py_min (PF (rnd pc)) (PI wl))))
+                     (py_sub rnd (PI sr) (py_min (PF (rnd (2 * sr) / 2)) (PI wl))))
+    = (free - wl) + (pc - Z.min (pc / 2) wl) + (sr - Z.min (sr / 2) wl).
+  Proof.
+    intros HF HW HP HS HB free wl pc sr. subst free wl pc sr.
+    assert (B : 2 ^ 61 = 2305843009213693952) by reflexivity.
+    assert (B3 : 2 ^ 63 = 9223372036854775808) by reflexivity.
+    rewrite !half_exact.
+    assert (R : forall x, x mod 1024 = 0 -> - 9223372036854775808 < x < 9223372036854775808 -> rnd x = x)
+      by (intros; apply Hr; lia).
+    rewrite (R (P * 1024)) by lia.
+    rewrite (R (2 * (S * 1024))) by lia.
+    replace (2 * (S * 1024) / 2) with (S * 1024) by lia.
+    unfold py_min. cbn [half2].
+    destruct (2 * (W * 512) <? P * 1024) eqn:E1; destruct (2 * (W * 512) <? S * 1024) eqn:E2;
+      cbn [py_sub py_add to_f py_trunc];
+      repeat (match goal with |- context [rnd ?x] => rewrite (R x) by lia end);
+      lia.
+  Qed.
+End FloatExact.
 
 Section VMProof.
   Variable k : kernel.
@@ -179,20 +281,35 @@ Section VMProof.
   Hypothesis Hd : forall name, dget (bs name) d = kbytes (k_mem k) name.
   Hypothesis Hz : opt_forall (forallb wf_zline) (k_zone k) = true.
   Hypothesis Hw : wf_meminfo (k_mem k) = true.
+  Hypothesis Hfl : float_exact k = true.
 
-  Lemma calc_avail_spec f : kbytes (k_mem k) "MemFree:" = Some f ->
+  Lemma calc_avail_spec f : kbytes (k_mem k) "MemFree:" = Some f -> needs_estimate k = true ->
     calc_avail (k_pagesize k) d (option_map k_zoneinfo (k_zone k)) = Val (sp_fallback k).
   Proof.
-    intros Hf. unfold calc_avail, sp_fallback, sp_free.
+    intros Hf Hne. unfold calc_avail, calc_avail_gen, sp_fallback, sp_free.
     unfold K_MemFree, K_Cached, K_ActiveFile, K_InactiveFile, K_SReclaimable.
     rewrite !Hd, Hf. cbn [of_option obind default0].
+    unfold float_exact in Hfl. rewrite Hne in Hfl. unfold sp_free in Hfl. rewrite Hf in Hfl. cbn [default0 negb orb] in Hfl.
     destruct (kbytes (k_mem k) "Active(file):") as [af|] eqn:E1; [|reflexivity].
     destruct (kbytes (k_mem k) "Inactive(file):") as [inf|] eqn:E2; [|reflexivity].
     destruct (kbytes (k_mem k) "SReclaimable:") as [sr|] eqn:E3; [|reflexivity].
     destruct (k_zone k) as [zs|] eqn:E4; [|reflexivity].
     cbn [option_map]. cbn [opt_forall] in Hz. rewrite (zone_low_printed zs Hz). cbn [obind].
+    pose proof (low_pages_nonneg zs Hz) as HL.
+    pose proof (kbytes_nonneg _ _ _ Hw Hf) as N0. pose proof (kbytes_nonneg _ _ _ Hw E1) as N1.
+    pose proof (kbytes_nonneg _ _ _ Hw E2) as N2. pose proof (kbytes_nonneg _ _ _ Hw E3) as N3.
     apply kbytes_mult in E1 as [a ->]. apply kbytes_mult in E2 as [b ->]. apply kbytes_mult in E3 as [c ->].
-    f_equal. apply avail_arith.
+    apply kbytes_mult in Hf as [F ->].
+    apply andb_true_iff in Hfl as [Hfl HB]. apply andb_true_iff in Hfl as [P0 P5].
+    set (ps := k_pagesize k) in *. set (q := ps / 512).
+    assert (Hq : ps = q * 512) by (subst q; lia).
+    assert (Q0 : 0 <= q) by lia.
+    replace (low_pages zs * ps) with ((low_pages zs * q) * 512) in * by (rewrite Hq; ring).
+    replace (a * 1024 + b * 1024) with ((a + b) * 1024) in * by lia.
+    assert (W0 : 0 <= low_pages zs * q) by nia.
+    pose proof (fl_path_exact rnd53 rnd53_exact F (low_pages zs * q) (a + b) c
+                  ltac:(lia) W0 ltac:(lia) ltac:(lia) ltac:(lia)) as X.
+    cbv zeta in X. rewrite X. reflexivity.
   Qed.
 
   Theorem vm_of_dict_spec : has_total_free k = true ->
@@ -205,12 +322,13 @@ Section VMProof.
     unfold K_MemTotal, K_MemFree, K_Buffers, K_Cached, K_SReclaimable, K_Shmem, K_MemShared, K_Active,
       K_Inactive, K_Inact_dirty, K_Inact_clean, K_Inact_laundry, K_Slab, K_MemAvailable.
     rewrite !Hd, Et, Ef. cbn [of_option obind].
-    rewrite !(calc_avail_spec f Ef).
     assert (HA : match kbytes (k_mem k) "MemAvailable:" with
-                 | Some a => if a =? 0 then Val (sp_fallback k) else Val a
-                 | None => Val (sp_fallback k) end = Val (sp_avail_raw k)).
-    { unfold sp_avail_raw. destruct (kbytes (k_mem k) "MemAvailable:") as [a|]; [|reflexivity].
-      destruct (a =? 0); reflexivity. }
+                 | Some a => if a =? 0 then calc_avail (k_pagesize k) d (option_map k_zoneinfo (k_zone k)) else Val a
+                 | None => calc_avail (k_pagesize k) d (option_map k_zoneinfo (k_zone k)) end
+                 = Val (sp_avail_raw k)).
+    { unfold sp_avail_raw. pose proof (calc_avail_spec f Ef) as C. unfold needs_estimate in C.
+      destruct (kbytes (k_mem k) "MemAvailable:") as [a|]; [|now apply C].
+      destruct (a =? 0); [now apply C|reflexivity]. }
     rewrite HA. cbn [obind]. clear HA.
     assert (Ht : sp_total k = t) by (unfold sp_total; now rewrite Et).
     assert (Hf : sp_free k = f) by (unfold sp_free; now rewrite Ef).
@@ -235,17 +353,107 @@ Section VMProof.
       destruct (kbytes (k_mem k) "Cached:"); reflexivity.
   Qed.
 End VMProof.
+Ltac Zify.zify_post_hook ::= idtac.
 
 (* ================================================================ main theorems *)
-Theorem vm_exact k : wf_kernel k = true -> has_total_free k = true ->
-  virtual_memory (k_pagesize k) (k_meminfo (k_mem k)) (option_map k_zoneinfo (k_zone k))
+Lemma wf_kernel_inv k : wf_kernel k = true ->
+  wf_meminfo (k_mem k) = true /\ opt_forall (forallb wf_zline) (k_zone k) = true /\ opt_forall wf_vmstat (k_vm k) = true.
+Proof.
+  unfold wf_kernel. intros H. apply andb_true_iff in H as [H Hv]. apply andb_true_iff in H as [Hm Hz]. auto.
+Qed.
+
+(* [len] = true: the lenient parser of notes/fixes/C08-meminfo-legacy-header.diff, any well-formed file;
+   [len] = false: the code as it is now, files made of "name number ..." lines only *)
+Theorem vm_exact_gen len k : wf_kernel k = true -> has_total_free k = true -> float_exact k = true ->
+  (len = true \/ no_junk (k_mem k) = true) ->
+  virtual_memory_gen len (k_pagesize k) (k_meminfo (k_mem k)) (option_map k_zoneinfo (k_zone k))
   = Val (spec_vm k).
 Proof.
-  intros Hwf Htf. unfold wf_kernel in Hwf.
-  apply andb_true_iff in Hwf as [Hwf _]. apply andb_true_iff in Hwf as [Hm Hz].
-  destruct (parse_meminfo_printed (k_mem k) Hm) as [d [Hp Hd]].
-  unfold virtual_memory. rewrite Hp. cbn [obind].
+  intros Hwf Htf Hfl HL. apply wf_kernel_inv in Hwf as [Hm [Hz _]].
+  destruct (parse_meminfo_printed len (k_mem k) Hm HL) as [d [Hp Hd]].
+  unfold virtual_memory_gen. rewrite Hp. cbn [obind].
   now apply vm_of_dict_spec.
+Qed.
+
+Theorem vm_exact k : wf_kernel k = true -> has_total_free k = true -> no_junk (k_mem k) = true ->
+  float_exact k = true ->
+  virtual_memory (k_pagesize k) (k_meminfo (k_mem k)) (option_map k_zoneinfo (k_zone k))
+  = Val (spec_vm k).
+Proof. intros Hwf Htf Hj Hfl. apply (vm_exact_gen false); auto. Qed.
+
+Theorem vm_exact_lenient k : wf_kernel k = true -> has_total_free k = true -> float_exact k = true ->
+  virtual_memory_gen true (k_pagesize k) (k_meminfo (k_mem k)) (option_map k_zoneinfo (k_zone k))
+  = Val (spec_vm k).
+Proof. intros Hwf Htf Hfl. apply (vm_exact_gen true); auto. Qed.
+
+(* when /proc/zoneinfo is not consulted (MemAvailable present and non-zero, or an input of the
+   estimate missing) its content -- present, absent, unparsable, any bytes -- does not matter *)
+Theorem vm_zoneinfo_unread len k (z : option bytes) :
+  wf_kernel k = true -> has_total_free k = true -> (len = true \/ no_junk (k_mem k) = true) ->
+  zone_read k = false ->
+  virtual_memory_gen len (k_pagesize k) (k_meminfo (k_mem k)) z = Val (spec_vm k).
+Proof.
+  intros Hwf Htf HL Hzr.
+  (* the same kernel without zoneinfo has the same demanded answer and the same model run *)
+  pose (k0 := {| k_mem := k_mem k; k_zone := None; k_vm := k_vm k; k_pagesize := k_pagesize k; k_sysinfo := k_sysinfo k |}).
+  assert (W0 : wf_kernel k0 = true).
+  { apply wf_kernel_inv in Hwf as [Hm [_ Hv]]. unfold wf_kernel, k0. cbn [k_mem k_zone k_vm opt_forall].
+    now rewrite Hm, Hv. }
+  assert (F0 : float_exact k0 = true).
+  { unfold float_exact, k0. cbn [k_mem k_zone].
+    destruct (kbytes (k_mem k) "Active(file):"), (kbytes (k_mem k) "Inactive(file):"), (kbytes (k_mem k) "SReclaimable:"); reflexivity. }
+  pose proof (vm_exact_gen len k0 W0 Htf F0 HL) as E0. cbn [k0 k_mem k_zone k_pagesize option_map] in E0.
+  assert (S0 : spec_vm k0 = spec_vm k).
+  { unfold spec_vm, sp_available, sp_percent10, sp_missing, sp_available, sp_avail_raw, sp_fallback, sp_used,
+      sp_cached, sp_buffers, sp_total, sp_free, sp_active, sp_inactive, sp_inactive_o, sp_shared, sp_slab, k0.
+    cbn [k_mem k_zone k_pagesize].
+    unfold zone_read, needs_estimate in Hzr.
+    destruct (kbytes (k_mem k) "MemAvailable:") as [a|]; [destruct (a =? 0) eqn:Ea|];
+      cbn [andb] in Hzr; try reflexivity;
+      destruct (kbytes (k_mem k) "Active(file):"), (kbytes (k_mem k) "Inactive(file):"),
+        (kbytes (k_mem k) "SReclaimable:"); try discriminate Hzr; reflexivity. }
+  rewrite <- S0, <- E0.
+  (* the model does not look at z *)
+  unfold virtual_memory_gen. destruct (parse_meminfo len (k_meminfo (k_mem k))) as [d| |] eqn:Ep; try reflexivity.
+  cbn [obind].
+  apply wf_kernel_inv in Hwf as [Hm _].
+  destruct (parse_meminfo_printed len (k_mem k) Hm HL) as [d' [Hp Hd]]. rewrite Hp in Ep. injection Ep as ->.
+  unfold vm_of_dict, calc_avail, calc_avail_gen.
+  unfold K_MemAvailable, K_ActiveFile, K_InactiveFile, K_SReclaimable. rewrite !Hd.
+  unfold zone_read, needs_estimate in Hzr.
+  destruct (dget K_MemTotal d); [|reflexivity]. destruct (dget K_MemFree d); [|reflexivity]. cbn [of_option obind].
+  destruct (kbytes (k_mem k) "MemAvailable:") as [a|]; [destruct (a =? 0) eqn:Ea|];
+    cbn [andb] in Hzr; try reflexivity;
+    destruct (kbytes (k_mem k) "Active(file):"), (kbytes (k_mem k) "Inactive(file):"),
+      (kbytes (k_mem k) "SReclaimable:"); try discriminate Hzr; reflexivity.
+Qed.
+
+(* when it IS consulted, an arbitrary file either yields a watermark or raises IndexError / ValueError *)
+Theorem vm_zoneinfo_raw_outcomes len k (z : bytes) :
+  wf_kernel k = true -> has_total_free k = true -> (len = true \/ no_junk (k_mem k) = true) ->
+  (exists r, virtual_memory_gen len (k_pagesize k) (k_meminfo (k_mem k)) (Some z) = Val r) \/
+  virtual_memory_gen len (k_pagesize k) (k_meminfo (k_mem k)) (Some z) = Exc IndexError \/
+  virtual_memory_gen len (k_pagesize k) (k_meminfo (k_mem k)) (Some z) = Exc ValueError.
+Proof.
+  intros Hwf Htf HL. apply wf_kernel_inv in Hwf as [Hm _].
+  destruct (parse_meminfo_printed len (k_mem k) Hm HL) as [d [Hp Hd]].
+  unfold virtual_memory_gen. rewrite Hp. cbn [obind].
+  unfold has_total_free in Htf.
+  destruct (kbytes (k_mem k) "MemTotal:") as [t|] eqn:Et; [|discriminate].
+  destruct (kbytes (k_mem k) "MemFree:") as [f|] eqn:Ef; [|discriminate].
+  unfold vm_of_dict. unfold K_MemTotal, K_MemFree. rewrite !Hd, Et, Ef. cbn [of_option obind].
+  assert (C : (exists n, calc_avail (k_pagesize k) d (Some z) = Val n) \/
+              calc_avail (k_pagesize k) d (Some z) = Exc IndexError \/
+              calc_avail (k_pagesize k) d (Some z) = Exc ValueError).
+  { unfold calc_avail, calc_avail_gen. unfold K_MemFree. rewrite Hd, Ef. cbn [of_option obind].
+    destruct (dget K_ActiveFile d); [|left; eexists; reflexivity].
+    destruct (dget K_InactiveFile d); [|left; eexists; reflexivity].
+    destruct (dget K_SReclaimable d); [|left; eexists; reflexivity].
+    destruct (zone_low_outcomes (lines_keep z) 0) as [[n ->]|[-> | ->]]; cbn [obind]; eauto. }
+  destruct (dget K_MemAvailable d) as [a|]; [destruct (a =? 0)|].
+  - destruct C as [[n ->]|[-> | ->]]; cbn [obind]; eauto.
+  - cbn [obind]. eauto.
+  - destruct C as [[n ->]|[-> | ->]]; cbn [obind]; eauto.
 Qed.
 
 Lemma default0_nonneg ms name : wf_meminfo ms = true -> 0 <= default0 (kbytes ms name).
@@ -258,8 +466,7 @@ Qed.
 Theorem vm_range k : wf_kernel k = true -> sp_free k <= sp_total k ->
   0 <= sp_available k <= sp_total k /\ 0 <= sp_percent10 k <= 1000.
 Proof.
-  intros Hwf Hle. unfold wf_kernel in Hwf.
-  apply andb_true_iff in Hwf as [Hwf _]. apply andb_true_iff in Hwf as [Hm _].
+  intros Hwf Hle. apply wf_kernel_inv in Hwf as [Hm _].
   assert (H0 : 0 <= sp_free k) by (apply default0_nonneg; exact Hm).
   assert (HA : 0 <= sp_available k <= sp_total k).
   { unfold sp_available. destruct (sp_avail_raw k <? 0) eqn:E1; [lia|].
@@ -269,12 +476,21 @@ Proof.
   apply round_he_range; nia.
 Qed.
 
+(* percent is the exact ratio (total-available)*100/total rounded half-to-even to one decimal *)
+Theorem vm_percent_half_even k : wf_kernel k = true -> 0 < sp_total k ->
+  nearest_even (sp_percent10 k) ((sp_total k - sp_available k) * 1000) (sp_total k).
+Proof.
+  intros _ Ht. unfold sp_percent10. assert (sp_total k =? 0 = false) as -> by lia.
+  now apply round_he_nearest.
+Qed.
+
+Definition ml (n : string) (p : nat) (v : string) : mitem :=
+  MLine {| ml_name := bs n; ml_pad := p; ml_val := bs v; ml_rest := bs " kB" |}.
+
 (* the hypothesis free <= total cannot be dropped: a container-distorted meminfo with
    MemFree > MemTotal and MemAvailable > MemTotal is answered with available = free > total *)
 Definition distorted_kernel : kernel :=
-  {| k_mem := [ {| ml_name := bs "MemTotal:"; ml_pad := 7; ml_val := bs "7"; ml_kb := true |};
-                {| ml_name := bs "MemFree:"; ml_pad := 8; ml_val := bs "9"; ml_kb := true |};
-                {| ml_name := bs "MemAvailable:"; ml_pad := 3; ml_val := bs "9"; ml_kb := true |} ];
+  {| k_mem := [ ml "MemTotal:" 7 "7"; ml "MemFree:" 8 "9"; ml "MemAvailable:" 3 "9" ];
      k_zone := None; k_vm := None; k_pagesize := 4096; k_sysinfo := (0, 0, 1) |}.
 Theorem vm_range_needs_free_le_total :
   exists k, wf_kernel k = true /\ has_total_free k = true /\ sp_total k < sp_free k /\
@@ -285,84 +501,3 @@ Proof.
   eexists. split; [vm_compute; reflexivity|]. split; vm_compute; reflexivity.
 Qed.
 
-(* what the demanded record says when an optional counter does not exist: the metric is 0 and
-   (slab excepted) it is named in the warning -- for EVERY other content of the files *)
-Theorem vm_missing_fields k r : wf_kernel k = true -> has_total_free k = true ->
-  virtual_memory (k_pagesize k) (k_meminfo (k_mem k)) (option_map k_zoneinfo (k_zone k)) = Val r ->
-  (kbytes (k_mem k) "Buffers:" = None -> v_buffers r = 0 /\ In (bs "buffers") (v_missing r)) /\
-  (kbytes (k_mem k) "Cached:" = None -> v_cached r = 0 /\ In (bs "cached") (v_missing r)) /\
-  (kbytes (k_mem k) "Shmem:" = None -> kbytes (k_mem k) "MemShared:" = None -> v_shared r = 0 /\ In (bs "shared") (v_missing r)) /\
-  (kbytes (k_mem k) "Active:" = None -> v_active r = 0 /\ In (bs "active") (v_missing r)) /\
-  (kbytes (k_mem k) "Inactive:" = None -> (kbytes (k_mem k) "Inact_dirty:" = None \/ kbytes (k_mem k) "Inact_clean:" = None \/ kbytes (k_mem k) "Inact_laundry:" = None) ->
-     v_inactive r = 0 /\ In (bs "inactive") (v_missing r)) /\
-  (kbytes (k_mem k) "Slab:" = None -> v_slab r = 0) /\
-  (kbytes (k_mem k) "SReclaimable:" = None -> forall c, kbytes (k_mem k) "Cached:" = Some c -> v_cached r = c).
-Proof.
-  intros Hwf Htf Hr. rewrite (vm_exact k Hwf Htf) in Hr. injection Hr as <-.
-  cbn [spec_vm v_buffers v_cached v_shared v_active v_inactive v_slab v_missing].
-  unfold sp_missing, sp_buffers, sp_cached, sp_shared, sp_active, sp_inactive, sp_inactive_o, sp_slab, absent.
-  assert (IN : forall (x : bytes) a b c d e f, In x a \/ In x b \/ In x c \/ In x d \/ In x e \/ In x f ->
-                In x (a ++ b ++ c ++ d ++ e ++ f)).
-  { intros. rewrite !in_app_iff. tauto. }
-  split; [intros H; rewrite H; split; [reflexivity|apply IN; cbn [In]; auto 10]|].
-  split; [intros H; rewrite H; split; [reflexivity|apply IN; cbn [In]; auto 10]|].
-  split; [intros H H0; rewrite H, H0; split; [reflexivity|apply IN; cbn [In]; auto 10]|].
-  split; [intros H; rewrite H; split; [reflexivity|apply IN; cbn [In]; auto 10]|].
-  split.
-  { intros H H0. rewrite H.
-    destruct (kbytes (k_mem k) "Inact_dirty:") as [x1|], (kbytes (k_mem k) "Inact_clean:") as [x2|],
-      (kbytes (k_mem k) "Inact_laundry:") as [x3|];
-      try (destruct H0 as [E|[E|E]]; discriminate E);
-      (split; [reflexivity|apply IN; cbn [In]; auto 10]). }
-  split; [intros H; now rewrite H|].
-  intros H c Hc. rewrite Hc, H. cbn [default0]. lia.
-Qed.
-
-(* conversely the warning names nothing else: a name in it is a metric reported as 0 *)
-Theorem vm_warning_sound k r : wf_kernel k = true -> has_total_free k = true ->
-  virtual_memory (k_pagesize k) (k_meminfo (k_mem k)) (option_map k_zoneinfo (k_zone k)) = Val r ->
-  forall n, In n (v_missing r) ->
-    (n = bs "buffers" /\ v_buffers r = 0) \/ (n = bs "cached" /\ v_cached r = 0) \/
-    (n = bs "shared" /\ v_shared r = 0) \/ (n = bs "active" /\ v_active r = 0) \/
-    (n = bs "inactive" /\ v_inactive r = 0) \/ (n = bs "available" /\ v_available r = 0).
-Proof.
-  intros Hwf Htf Hr n Hn. rewrite (vm_exact k Hwf Htf) in Hr. injection Hr as <-.
-  cbn [spec_vm v_buffers v_cached v_shared v_active v_inactive v_available v_missing] in *.
-  unfold sp_missing, absent in Hn. rewrite !in_app_iff in Hn.
-  destruct Hn as [Hn|[Hn|[Hn|[Hn|[Hn|Hn]]]]].
-  - left. unfold sp_buffers. destruct (kbytes (k_mem k) "Buffers:"); [destruct Hn|].
-    destruct Hn as [<-|[]]. auto.
-  - right. left. unfold sp_cached. destruct (kbytes (k_mem k) "Cached:"); [destruct Hn|].
-    destruct Hn as [<-|[]]. auto.
-  - right. right. left. unfold sp_shared. destruct (kbytes (k_mem k) "Shmem:"); [destruct Hn|].
-    destruct (kbytes (k_mem k) "MemShared:"); [destruct Hn|]. destruct Hn as [<-|[]]. auto.
-  - right. right. right. left. unfold sp_active. destruct (kbytes (k_mem k) "Active:"); [destruct Hn|].
-    destruct Hn as [<-|[]]. auto.
-  - right. right. right. right. left. unfold sp_inactive. destruct (sp_inactive_o k); [destruct Hn|].
-    destruct Hn as [<-|[]]. auto.
-  - right. right. right. right. right. unfold sp_available.
-    destruct (sp_avail_raw k <? 0); [|destruct Hn]. destruct Hn as [<-|[]]. auto.
-Qed.
-
-(* the hypotheses are satisfiable by an ordinary meminfo / zoneinfo *)
-Definition ml (n : string) (p : nat) (v : string) : mline :=
-  {| ml_name := bs n; ml_pad := p; ml_val := bs v; ml_kb := true |}.
-Definition sample_kernel : kernel :=
-  {| k_mem := [ ml "MemTotal:" 7 "16384256"; ml "MemFree:" 9 "1234568"; ml "Buffers:" 9 "204800";
-                ml "Cached:" 10 "4000000"; ml "Active(file):" 3 "2000000"; ml "Inactive(file):" 1 "1500000";
-                {| ml_name := bs "HugePages_Total:"; ml_pad := 7; ml_val := bs "0"; ml_kb := false |};
-                ml "Shmem:" 11 "300000"; ml "Slab:" 12 "600000"; ml "SReclaimable:" 4 "400000";
-                ml "SwapTotal:" 5 "2097148"; ml "SwapFree:" 6 "2000000" ];
-     k_zone := Some [ ZOther (bs "Node 0, zone      DMA"); ZOther (bs "  pages free     3840");
-                      ZOther (bs "        min      6"); ZLow 8 5 (bs "9"); ZOther (bs "        high     12");
-                      ZOther (bs "Node 0, zone   Normal"); ZLow 8 5 (bs "16912"); ZOther (bs "      nr_free_pages 3840") ];
-     k_vm := Some [ {| vl_name := bs "pgpgout"; vl_val := bs "83" |}; {| vl_name := bs "pswpin"; vl_val := bs "5" |};
-                    {| vl_name := bs "pswpout"; vl_val := bs "17" |}; {| vl_name := bs "pgfault"; vl_val := bs "9" |} ];
-     k_pagesize := 4096; k_sysinfo := (0, 0, 1) |}.
-Example sample_kernel_ok :
-  wf_kernel sample_kernel = true /\ has_total_free sample_kernel = true /\
-  sp_free sample_kernel <= sp_total sample_kernel /\
-  (* MemAvailable absent: the watermark estimate *)
-  sp_available sample_kernel = (1234568 + 2000000 + 1500000 + 400000) * 1024 - 3 * (16921 * 4096) /\
-  sp_missing sample_kernel = [bs "active"; bs "inactive"].
-Proof. vm_compute. repeat split; congruence. Qed.
